@@ -23,11 +23,19 @@ def wrap(cls, name, rec, post=None, pre=None, label=None):
     def wrapper(*a, **k):
         old = None
         if pre is not None:
-            old = pre(a, k)
+            try:
+                old = pre(a, k)
+            except Exception:
+                rec.count(f"contract_internal_error:{label}")
+                return orig(*a, **k)
         result = orig(*a, **k)
         if post is not None:
             rec.count(f"contract:{label}")
-            post(rec, result, a, k, old)
+            try:
+                post(rec, result, a, k, old)
+            except Exception as e:  # a bug or an unmet assumption of the monitor must never change the observed run
+                rec.count(f"contract_internal_error:{label}")
+                rec.count(f"contract_internal_error:{label}:{type(e).__name__}")
         return result
 
     wrapper.__wrapped_original__ = raw
